@@ -506,7 +506,7 @@ def sample_measures(T, rp, rng, n):
             # rounding and far below anything a random draw produces (an orthogonal matrix times a tiny strain, a
             # symmetric stretch times a tiny rotation, a diagonal matrix with tiny couplings).  The laws hold for them
             # as for every matrix - to rounding, not to the size of the perturbation.
-            delta = (1e-4, 1e-6, 3e-7, 1e-8)[(t // 12) % 4]
+            delta = (1e-8, 1e-7, 1e-6, 1e-4)[(t // 12) % 4]
             q1 = rot(rng.integers(2**31))
             sym = rng.normal(size=(3, 3))
             sym = (sym + sym.T) / 2
@@ -686,7 +686,7 @@ def main(tier):
 
     # ---- 6. seeded float measures, judged by TLC
     rng = np.random.default_rng(SEED + 11)
-    events, inputs = sample_measures(T, rp, rng, 25 if quick else 400)
+    events, inputs = sample_measures(T, rp, rng, 37 if quick else 400)
     with scratch() as d:
         rej, mres = judge_measures(events, d)
         chk.add_tlc("TensorsMeasures", mres, f"{len(events)} deviation measures of seeded random inputs against the tolerance law")
